@@ -6,6 +6,7 @@ import MelModel.Proto
 import MelModel.ProtoState
 import MelModel.Merkle
 import MelModel.Genesis
+import MelModel.VM.Std
 open Mel Mel.VM Mel.Proto
 
 /-! ### VM-level operations -/
@@ -32,6 +33,23 @@ def handleEnc (t : String) : String :=
         | some ops' => decide (ops' = ops)
         | none => false
       s!"ok {hexOrDash bs} back={if back then 1 else 0}"
+
+/-- the standard covenants, encoded: compared with `Covenant::std_ed25519_pk_new/legacy/always_true(..).to_bytes()` -/
+def handleStd (which pk : String) : String :=
+  match bytesOfHex pk with
+  | none => "bad-op"
+  | some k =>
+    let ops? : Option (List Op) := match which with
+      | "new" => some (stdEd25519New k)
+      | "legacy" => some (stdEd25519Legacy k)
+      | "true" => some alwaysTrue
+      | _ => none
+    match ops? with
+    | none => "bad-op"
+    | some ops =>
+      match encodeAll ops with
+      | some bs => s!"ok {hexOrDash bs}"
+      | none => "panic"
 
 def handleW (h : String) : String :=
   match bytesOfHex h with
@@ -355,6 +373,7 @@ def handleLine (w : DWorld) (line : String) : DWorld × String :=
   | ["dec", h] => (w, handleDec h)
   | ["enc", t] => (w, handleEnc t)
   | ["w", h] => (w, handleW h)
+  | ["std", which, pk] => (w, handleStd which pk)
   | ["run", p, h, o] => (w, handleRun p h o)
   | ["fm", m, d, t] => (w, handleFm m d t)
   | ["reset"] => ({}, "ok")
